@@ -232,10 +232,10 @@ BodyRaise(M, F, t, v, u) ==   \* the body lets exception (v,u) escape: with-bloc
       M2 == [M1 EXCEPT !.tk[t].gen = "none", !.tk[t].deps = <<>>, !.tk[t].lastv = Val("N", 0, <<>>), !.tk[t].st = "done"]
   IN Epilogue(TaskDoneEv(M2, t, v, u), F, t)
 
-BodyReturn(M, F, t) ==
+BodyReturn(M, F, t, ret) ==     \* ret # 0: the body returns the (never awaited) task object `ret` itself
   LET M1 == UnwindCtxs(M, t)
       M2 == [M1 EXCEPT !.tk[t].gen = "none", !.tk[t].deps = <<>>, !.tk[t].lastv = Val("N", 0, <<>>), !.tk[t].st = "done"]
-  IN Epilogue(TaskDoneEv(M2, t, Val("r", t, M.tk[t].recvs), 0), F, t)
+  IN Epilogue(TaskDoneEv(M2, t, IF ret # 0 THEN Val("fut", ret, <<>>) ELSE Val("r", t, M.tk[t].recvs), 0), F, t)
 
 Continue(M, F, t) ==          \* one turn of `while True` in AsyncTask._continue
   LET uw == UnwrapR(M.tk[t].lastv, M.out)
@@ -304,8 +304,8 @@ RunTerm(M, F, t, k) ==
              deps == ExtractOrder(r.s)
              M2 == [M1 EXCEPT !.tk[t].lastv = r.s, !.tk[t].deps = deps, !.tk[t].pc = k, !.tk[t].gen = "open"]
          IN IF deps = <<>> THEN Continue(M2, F, t) ELSE Epilogue(M2, F, t)
-    [] tm.k = "return" -> BodyReturn(SegEndEv(M, t, k, 2, Val("N", 0, <<>>)), F, t)
-    [] tm.k = "result" -> BodyReturn(SegEndEv(M, t, k, 3, Val("N", 0, <<>>)), F, t)
+    [] tm.k = "return" -> BodyReturn(SegEndEv(M, t, k, 2, Val("N", 0, <<>>)), F, t, tm.ret)
+    [] tm.k = "result" -> BodyReturn(SegEndEv(M, t, k, 3, Val("N", 0, <<>>)), F, t, 0)
     [] tm.k = "raise"  -> LET u == M.uidc + 1 IN
                           BodyRaise(SegEndEv([M EXCEPT !.uidc = u], t, k, 4, Val("N", 0, <<>>)), F, t, VX(10000 + t * 100 + k), u)
 
